@@ -65,6 +65,7 @@ type Frame struct {
 	defers   []deferred
 	retInstr ssa.Instruction // call instruction in the caller frame awaiting our result
 	loops    map[*ssa.BasicBlock]*loopState
+	curLoop  *loopState // the loop whose head was reached last on this path
 	params   []Val
 	bind     []Val
 	retVals  []Val
